@@ -242,6 +242,7 @@ extern "C"
 {
 int open(const char* path, int flags, ...)
 {
+  simint::TsanIgn _tsan_ign;
   typedef int (*OpenFn)(const char*, int, ...);
   static OpenFn real = real_fn<OpenFn>("open");
   va_list ap;
@@ -261,6 +262,7 @@ int open(const char* path, int flags, ...)
 }
 int open64(const char* path, int flags, ...)
 {
+  simint::TsanIgn _tsan_ign;
   va_list ap;
   va_start(ap, flags);
   mode_t mode = (flags & (O_CREAT | O_TMPFILE)) ? va_arg(ap, mode_t) : 0;
@@ -269,6 +271,7 @@ int open64(const char* path, int flags, ...)
 }
 int openat(int dirfd, const char* path, int flags, ...)
 {
+  simint::TsanIgn _tsan_ign;
   typedef int (*OpenatFn)(int, const char*, int, ...);
   static OpenatFn real = real_fn<OpenatFn>("openat");
   va_list ap;
@@ -281,6 +284,7 @@ int openat(int dirfd, const char* path, int flags, ...)
 }
 int openat64(int dirfd, const char* path, int flags, ...)
 {
+  simint::TsanIgn _tsan_ign;
   va_list ap;
   va_start(ap, flags);
   mode_t mode = (flags & (O_CREAT | O_TMPFILE)) ? va_arg(ap, mode_t) : 0;
@@ -291,6 +295,7 @@ int creat(const char* path, mode_t mode) { return open(path, O_CREAT | O_WRONLY 
 
 static FILE* fopen_common(const char* name, const char* path, const char* mode)
 {
+  simint::TsanIgn _tsan_ign;
   typedef FILE* (*FopenFn)(const char*, const char*);
   static FopenFn real64 = real_fn<FopenFn>("fopen64");
   static FopenFn real32 = real_fn<FopenFn>("fopen");
@@ -309,6 +314,7 @@ FILE* fopen64(const char* path, const char* mode) { return fopen_common("fopen64
 FILE* fopen(const char* path, const char* mode) { return fopen_common("fopen", path, mode); }
 int fclose(FILE* f)
 {
+  simint::TsanIgn _tsan_ign;
   SIM_REAL(int, fclose, FILE*);
   if (on() && g_fs_track && f)
   {
@@ -324,6 +330,7 @@ int fclose(FILE* f)
 }
 ssize_t writev(int fd, const struct iovec* iov, int cnt)
 {
+  simint::TsanIgn _tsan_ign;
   SIM_REAL(ssize_t, writev, int, const struct iovec*, int);
   if (!on() || !fs_tracked_fd(fd)) return real(fd, iov, cnt);
   point(0xa06);
@@ -338,6 +345,7 @@ ssize_t writev(int fd, const struct iovec* iov, int cnt)
 }
 ssize_t pwrite(int fd, const void* b, size_t n, off_t off)
 {
+  simint::TsanIgn _tsan_ign;
   SIM_REAL(ssize_t, pwrite, int, const void*, size_t, off_t);
   if (!on() || !fs_tracked_fd(fd)) return real(fd, b, n, off);
   point(0xa07);
@@ -357,6 +365,7 @@ ssize_t pwrite(int fd, const void* b, size_t n, off_t off)
 ssize_t pwrite64(int fd, const void* b, size_t n, off_t off) { return pwrite(fd, b, n, off); }
 off_t lseek(int fd, off_t off, int whence)
 {
+  simint::TsanIgn _tsan_ign;
   SIM_REAL(off_t, lseek, int, off_t, int);
   off_t r = real(fd, off, whence);
   if (on() && fs_tracked_fd(fd) && r >= 0) g_fdmap[fd].off = (uint64_t)r;
@@ -365,6 +374,7 @@ off_t lseek(int fd, off_t off, int whence)
 off_t lseek64(int fd, off_t off, int whence) { return lseek(fd, off, whence); }
 int rename(const char* a, const char* b)
 {
+  simint::TsanIgn _tsan_ign;
   SIM_REAL(int, rename, const char*, const char*);
   std::string ra, rb;
   if (!on()) return real(a, b);
@@ -384,12 +394,14 @@ int rename(const char* a, const char* b)
 }
 int renameat(int d1, const char* a, int d2, const char* b)
 {
+  simint::TsanIgn _tsan_ign;
   SIM_REAL(int, renameat, int, const char*, int, const char*);
   if (on() && a && b && a[0] == '/' && b[0] == '/') return rename(a, b);
   return real(d1, a, d2, b);
 }
 int unlink(const char* p)
 {
+  simint::TsanIgn _tsan_ign;
   SIM_REAL(int, unlink, const char*);
   std::string rel;
   if (!on()) return real(p);
@@ -408,12 +420,14 @@ int unlink(const char* p)
 }
 int unlinkat(int d, const char* p, int flags)
 {
+  simint::TsanIgn _tsan_ign;
   SIM_REAL(int, unlinkat, int, const char*, int);
   if (on() && p[0] == '/' && !(flags & AT_REMOVEDIR)) return unlink(p);
   return real(d, p, flags);
 }
 int remove(const char* p)
 {
+  simint::TsanIgn _tsan_ign;
   SIM_REAL(int, remove, const char*);
   std::string rel;
   if (!on() || !under_root(p, rel)) return real(p);
@@ -424,6 +438,7 @@ int remove(const char* p)
 }
 int truncate(const char* p, off_t len)
 {
+  simint::TsanIgn _tsan_ign;
   SIM_REAL(int, truncate, const char*, off_t);
   std::string rel;
   if (!on() || !under_root(p, rel)) return real(p, len);
@@ -442,6 +457,7 @@ int truncate(const char* p, off_t len)
 int truncate64(const char* p, off_t len) { return truncate(p, len); }
 int ftruncate(int fd, off_t len)
 {
+  simint::TsanIgn _tsan_ign;
   SIM_REAL(int, ftruncate, int, off_t);
   if (!on() || !fs_tracked_fd(fd)) return real(fd, len);
   point(0xa0d);
@@ -459,12 +475,14 @@ int ftruncate(int fd, off_t len)
 int ftruncate64(int fd, off_t len) { return ftruncate(fd, len); }
 int fsync(int fd)
 {
+  simint::TsanIgn _tsan_ign;
   SIM_REAL(int, fsync, int);
   if (on() && fs_tracked_fd(fd)) { point(0xa0e); return 0; }
   return real(fd);
 }
 int fdatasync(int fd)
 {
+  simint::TsanIgn _tsan_ign;
   SIM_REAL(int, fdatasync, int);
   if (on() && fs_tracked_fd(fd)) { point(0xa0f); return 0; }
   return real(fd);
@@ -473,42 +491,49 @@ int fdatasync(int fd)
 // ---- path lookups as scheduling points (C20)
 int stat(const char* p, struct stat* st)
 {
+  simint::TsanIgn _tsan_ign;
   SIM_REAL(int, stat, const char*, struct stat*);
   if (on() && g_fs_yield) point(0xa10);
   return real(p, st);
 }
 int lstat(const char* p, struct stat* st)
 {
+  simint::TsanIgn _tsan_ign;
   SIM_REAL(int, lstat, const char*, struct stat*);
   if (on() && g_fs_yield) point(0xa11);
   return real(p, st);
 }
 int fstatat(int d, const char* p, struct stat* st, int fl)
 {
+  simint::TsanIgn _tsan_ign;
   SIM_REAL(int, fstatat, int, const char*, struct stat*, int);
   if (on() && g_fs_yield) point(0xa12);
   return real(d, p, st, fl);
 }
 ssize_t readlink(const char* p, char* b, size_t n)
 {
+  simint::TsanIgn _tsan_ign;
   SIM_REAL(ssize_t, readlink, const char*, char*, size_t);
   if (on() && g_fs_yield) point(0xa13);
   return real(p, b, n);
 }
 char* realpath(const char* p, char* out)
 {
+  simint::TsanIgn _tsan_ign;
   SIM_REAL(char*, realpath, const char*, char*);
   if (on() && g_fs_yield) point(0xa14);
   return real(p, out);
 }
 int symlink(const char* a, const char* b)
 {
+  simint::TsanIgn _tsan_ign;
   SIM_REAL(int, symlink, const char*, const char*);
   if (on() && g_fs_yield) point(0xa15);
   return real(a, b);
 }
 int access(const char* p, int m)
 {
+  simint::TsanIgn _tsan_ign;
   SIM_REAL(int, access, const char*, int);
   if (on() && g_fs_yield) point(0xa16);
   return real(p, m);
